@@ -28,8 +28,9 @@ THEOREMS = [("Arc.SqlAst.Props", t) for t in [
     "C14_transform_path_sound", "C14_transform_path_sound_header", "C14_raw_path_text",
     "C14_raw_nofrom_refuted", "C14_raw_nofrom_string_refuted", "C14_raw_pivot_refuted", "C14_raw_read_parquet_refuted",
     "C14_transform_table_kind_refuted", "C14_paren_group_refuted", "C14_backslash_quote_refuted",
-    "C14_quoted_comment_marker_refuted", "C14_query_function_refuted", "C14_header_cte_refuted",
-    "C14_header_cte_slow_path_refuted", "C14_lateral_string_injection_refuted", "C14_case_dedup_refuted",
+    "C14_quoted_comment_marker_refuted", "C14_quoted_comment_marker_string_position_refuted", "C14_query_function_refuted", "C14_header_cte_refuted",
+    "C14_header_cte_slow_path_refuted", "C14_header_window_clause_refuted", "C14_lateral_string_injection_refuted", "C14_case_dedup_refuted",
+    "C14_transform_path_sound_header_repaired",
 ]]
 TIE_NAME = ("C14 correspondence (QueryHandler.executeQuery via app.Test: ValidateSQLRequest, header checks, SHOW gate, "
             "checkQueryPermissions/extractTableReferences, getTransformedSQLForParallel/convertSQLToStoragePaths* "
@@ -53,6 +54,7 @@ WITNESSES = [
     ("raw-read-parquet-text", "SELECT * -- 'read_parquet\nFROM \"%s\" -- '" % P, "", ["db2/secret"]),
     ("raw-read-parquet-text:comment-marker-in-quoted-identifier", "SELECT 1 AS \"--\", * FROM read_parquet('%s')" % P2, "", ["db2/secret"]),
     ("raw-read-parquet-text:comment-marker-in-quoted-identifier", "SELECT 1 AS \"a/*\", * FROM read_parquet('%s') -- */" % P2, "", ["db2/secret"]),
+    ("path-literal-outside-from-join:comment-marker-in-quoted-identifier", "SELECT 'x' AS \"--\" FROM db1.cpu t1, '%s' t2" % P, "", ["db1/cpu", "db2/secret"]),
     ("path-literal-outside-from-join:statement-kind", 'WITH x AS (SELECT 1 FROM db1.cpu) TABLE "%s"' % P, "", ["db2/secret"]),
     ("path-literal-outside-from-join:statement-kind", 'SELECT * FROM db1.cpu UNION ALL TABLE "%s"' % P, "", ["db1/cpu", "db2/secret"]),
     ("path-literal-outside-from-join:paren-join-group", 'SELECT * FROM ("%s" a CROSS JOIN db1.cpu b)' % P, "", ["db1/cpu", "db2/secret"]),
@@ -61,8 +63,9 @@ WITNESSES = [
     ("path-literal-outside-from-join:sql-text-function", "SELECT * FROM query('SELECT * FROM ''%s''')" % P, "", ["db2/secret"]),
     ("path-literal-outside-from-join:sql-text-function",
      "SELECT * FROM json_execute_serialized_sql(json_serialize_sql('TABLE \"%s\"'))" % P, "", ["db2/secret"]),
-    ("header-cte-names-need-with-blank", "WITH\nsecret AS (SELECT 1) SELECT * FROM secret", "db2", ["db2/secret"]),
-    ("header-cte-names-need-with-blank", "WITH\tsecret AS (SELECT 'x') SELECT * FROM secret", "db2", ["db2/secret"]),
+    ("header-cte-names-differ-from-permission-check", "WITH\nsecret AS (SELECT 1) SELECT * FROM secret", "db2", ["db2/secret"]),
+    ("header-cte-names-differ-from-permission-check", "WITH\tsecret AS (SELECT 'x') SELECT * FROM secret", "db2", ["db2/secret"]),
+    ("header-cte-names-differ-from-permission-check", "SELECT * FROM secret WINDOW w1 AS (ORDER BY id), secret AS (ORDER BY id)", "db2", ["db2/secret"]),
     ("placeholder-as-table-name", "SELECT * FROM cpu a JOIN LATERAL ' || $$../db2/secret$$ || ' b ON true", "db1", ["db1/cpu", "db2/secret"]),
     ("case-insensitive-dedup", "SELECT * FROM cpu a JOIN CPU b ON a.id = b.id", "db1", ["db1/CPU", "db1/cpu"]),
 ]
@@ -86,6 +89,8 @@ KIND_WORDS = ["TABLE", "DESCRIBE", "DESC", "SHOW", "SUMMARIZE", "PIVOT", "UNPIVO
 
 def route_of(sql):
     lo = sql.lower()
+    if L.FIXBITS & 16:
+        return "transformed"
     if "read_parquet" in lo:
         return "raw-read-parquet"
     if "from" not in lo and "join" not in lo:
@@ -100,7 +105,7 @@ def signature(case, cl, flags, out):
     if any(a.startswith("__STR_") for _, a in cl["checked"]):
         return "placeholder-as-table-name"
     if case["hdr"] and not flags["hdr_ctes_ok"]:
-        return "header-cte-names-need-with-blank"
+        return "header-cte-names-differ-from-permission-check"
     if rt == "raw-no-from-join":
         first = re.sub(r"/\*.*?\*/|--[^\n]*", " ", sql, flags=re.S).split()
         w = first[0].upper() if first else ""
@@ -113,6 +118,8 @@ def signature(case, cl, flags, out):
         return "case-insensitive-dedup"
     if not flags["pathlike_free"]:
         lo = sql.lower()
+        if any(("--" in q or "/*" in q) and "parquet" not in q for q in re.findall(r'"([^"]*)"', sql)):
+            return "path-literal-outside-from-join:comment-marker-in-quoted-identifier"
         if "query(" in re.sub(r"\s+", "", lo) or "json_execute_serialized_sql" in lo or "query_table" in lo:
             return "path-literal-outside-from-join:sql-text-function"
         if "\\'" in sql or '\\"' in sql:
@@ -201,7 +208,7 @@ def corpus_cases():
 
 
 def build_cases(rng, tier):
-    n_gen, n_clean, n_soup, n_mut = (180, 120, 50, 40) if tier == "quick" else (4000, 2500, 1500, 1000)
+    n_gen, n_clean, n_soup, n_mut = (180, 120, 50, 40) if tier == "quick" else (2500, 1500, 800, 600)
     cases, meta = [], []
     for sig, sql, hdr, reads in WITNESSES:
         cases.append(L.mk_case(sql, hdr))
@@ -235,7 +242,7 @@ def build_cases(rng, tier):
     # a sample through the other endpoints that share the gate: only accept/reject, checked set and canaries
     nq = len(cases)
     first_gen = len(WITNESSES) + len(GUARD_PROBES) + len(corpus_cases())
-    twins = [0, 2, 5, 10, 20, 22] + list(range(first_gen, min(first_gen + 10, nq)))
+    twins = [0, 2, 5, 10, 21, 24] + list(range(first_gen, min(first_gen + 10, nq)))
     for ep in ("estimate", "arrow", "msgpack"):
         for t in twins:
             cases.append(dict(cases[t], ep=ep, reads=False))
@@ -298,6 +305,7 @@ def run(res, tier, seed):
     t1 = time.time()
     outs = L.run_cases("C14", cases, tier)
     res.stage("impl_harness", t1)
+    res.cov["repairs_present_in_source"] = L.fix_names()
     t2 = time.time()
     cls, flags = evaluate_fast(cases, outs, "Cases_" + tier)
     res.stage("model_eval", t2)
@@ -308,8 +316,11 @@ def run(res, tier, seed):
         if c["ep"] != "query":
             # the other endpoints share the gate: same accept/reject and the same checked list as /api/v1/query
             t = m["twin"]
-            same = (o.get("status") in (400, 403)) == (outs[t].get("status") in (400, 403)) and \
-                   (o.get("status") != 400 or outs[t].get("status") == 400) and cl["checked"] == cls[t]["checked"]
+            # (SHOW is answered by /api/v1/query only: the others run the same permission check and then say "not supported")
+            unsupported = "is not supported on the" in (o.get("err") or "")
+            refused = o.get("status") in (400, 403) and not unsupported
+            same = refused == (outs[t].get("status") in (400, 403)) and \
+                   ((o.get("status") == 400 and not unsupported) == (outs[t].get("status") == 400)) and cl["checked"] == cls[t]["checked"]
             if not same:
                 parity.append(i)
             fl.update(flags[t])
